@@ -486,7 +486,24 @@ func (r *Resolver) resolveOne(ctx context.Context, name, typ string) ([]any, err
 	return res, nil
 }
 
+// validQueryName reports whether name can be encoded in a DNS query: at most
+// 255 octets, in labels of at most 63 octets. RFC 1035, Section 2.3.4.
+func validQueryName(name string) bool {
+	if len(name) > 255 {
+		return false
+	}
+	for _, p := range strings.Split(strings.TrimSuffix(name, "."), ".") {
+		if len(p) > 63 {
+			return false
+		}
+	}
+	return true
+}
+
 func (r *Resolver) resolveOneNoCache(ctx context.Context, name, typ string) ([]any, uint32, error) {
+	if !validQueryName(name) {
+		return nil, 0, fmt.Errorf("%s (%s): %w", name, typ, ErrInvalidName)
+	}
 	qq := &dns.Message{
 		ID: 0x0000,
 		RD: 1,
